@@ -320,6 +320,57 @@ Proof.
   injection E as _ <- _ _. exact (match_loop_usable_ids _ _ _ _ _ _ _ Hus M).
 Qed.
 
+(* ---------- a whole round: offers after an exchange extend its descriptions ---------- *)
+Definition is_local (o : op) : Prop :=
+  match o with
+  | AddTransceiver _ _ | StopTransceiver _ | CreateDataChannel | CreateOffer => True
+  | _ => False
+  end.
+
+Lemma step_local_remote s o :
+  is_local o ->
+  cur_remote (fst (step s o)) = cur_remote s /\ pend_remote (fst (step s o)) = pend_remote s.
+Proof.
+  destruct o; cbn [is_local step]; intro H; try contradiction.
+  - unfold add_transceiver. destruct d; try destruct (has_codecs s k); split; reflexivity.
+  - unfold stop_transceiver. destruct (upd_nth i stop_tr (trs s)); split; reflexivity.
+  - split; reflexivity.
+  - destruct (create_offer s) as [s' r] eqn:E. cbn [fst].
+    pose proof (create_offer_remote s) as H2. rewrite E in H2. exact H2.
+Qed.
+
+Lemma run_local_remote ops : forall s,
+  Forall is_local ops ->
+  cur_remote (run_from s ops) = cur_remote s /\ pend_remote (run_from s ops) = pend_remote s.
+Proof.
+  induction ops as [|o rest IH]; intros s H; [split; reflexivity|].
+  inversion H as [|? ? Ho Hrest]; subst.
+  unfold run_from. cbn [fold_left]. fold (run_from (fst (step s o)) rest).
+  destruct (IH (fst (step s o)) Hrest) as [A B]. destruct (step_local_remote s o Ho) as [C D].
+  split; congruence.
+Qed.
+
+(* after an exchange that ended with the remote description ra (an answer that
+   mirrors our offer d1, or the offer our answer d1 mirrored), every offer created
+   later, after any local additions, stops, data channels and earlier CreateOffer
+   calls, starts with the sections of d1 at their places *)
+Lemma round_extends_lemma s d1 ra ops s2 d2 :
+  cur_remote s = Some ra -> pend_remote s = None ->
+  map Some (map r_mid (r_secs ra)) = sec_mids d1 ->
+  (forall r, In r (r_secs ra) -> usable r = true) ->
+  Forall is_local ops -> codecs_ok (run_from s ops) ->
+  create_offer (run_from s ops) = (s2, Ok d2) ->
+  exists extra, sec_mids d2 = sec_mids d1 ++ extra.
+Proof.
+  intros Hc Hp Hm Hus Hl Hcod H. destruct (run_local_remote ops s Hl) as [A B].
+  rewrite <- Hm. eapply offer_extends_remote_lemma; eauto.
+  unfold offer_remote.
+  assert (E : cur_remote (offer_alloc (run_from s ops)) = cur_remote (run_from s ops) /\
+              pend_remote (offer_alloc (run_from s ops)) = pend_remote (run_from s ops)).
+  { unfold offer_alloc. destruct (alloc_mids _ (trs (run_from s ops))). split; reflexivity. }
+  destruct E as [E1 E2]. rewrite E1, E2, A, B, Hc, Hp. reflexivity.
+Qed.
+
 (* ---------- fresh mids ---------- *)
 (* no increment of the numbering loop leaves the int range *)
 Fixpoint alloc_nowrap (g : Z) (l : list tr) : bool :=
